@@ -49,7 +49,7 @@ def dense_inv(L):
 
 
 contract(
-    TP + 'expression_to_matrices', [('expression', ET)], returns=TTuple(TArr2, TArr1, TReal),
+    TP + 'expression_to_matrices', [('expression', ET)], returns=TTuple(TArr2, TArr1, TReal), pure=True,
     requires=tr_requires, ensures=dense_ens,
     loops={1: dict(inv=dense_inv, real_vars=['cons'], mods=lambda L: {})},
     local_types={'point1': 'Point', 'point2': 'Point'},
